@@ -373,6 +373,12 @@ func visitInstr(fr *frame, instr ssa.Instruction) continuation {
 
 	case *ssa.Lookup:
 		fr.env[instr] = lookup(instr, fr.get(instr.X), fr.get(instr.Index))
+		if theEngine != nil && theEngine.TraceEvents {
+			if m, ok := fr.get(instr.X).(*omap); ok && m != nil {
+				_, hit := m.lookup(fr.get(instr.Index))
+				theEngine.noteMap(fr, "read", instr.X, fr.get(instr.Index), hit, instr.Pos())
+			}
+		}
 
 	case *ssa.MapUpdate:
 		m := fr.get(instr.Map)
@@ -384,6 +390,7 @@ func visitInstr(fr *frame, instr ssa.Instruction) continuation {
 				panic(runtimeErrString("assignment to entry in nil map"))
 			}
 			m.insert(key, v)
+			theEngine.noteMap(fr, "write", instr.Map, key, false, instr.Pos())
 		default:
 			panic(fmt.Sprintf("illegal map type: %T", m))
 		}
